@@ -58,7 +58,7 @@ def w_eye(ctx, rng, i):
     R = float(rng.choice([1e9, 2.5e9, 1e10]))
     with core.quiet():
         T.gv(sps=sps, R=R)
-    nslots = int(rng.choice([64, 128, 256, 512]))
+    nslots = int(rng.choice([64, 65, 127, 128, 255, 256, 511, 512]))     # odd slot counts (a whole PRBS period) exercise the truncation to an even number of slots
     pattern = "prbs" if i % 2 else "random"
     bits = make_record(rng, sps, nslots, pattern)
     swing = float(10 ** rng.uniform(-3, 2))
